@@ -595,3 +595,205 @@ def ownership_gap(rep, split=False):
                     rep.bad('R19.b', key, cs.loc(), '%s releases ownership without dropping (%s) in codec code: on an error path the allocation is never freed' % (b.key, cs.callee))
     if n < 1:
         rep.anchor_missing('R19.b', 'mem::forget in prost string::merge')
+
+
+# ------------------------------------------------------------------------------------------------ C20
+import struct as _struct
+
+NUM_TYPES = ('i8', 'i16', 'i32', 'i64', 'f64', 'f32', 'bool')
+
+
+def body_leaves(body, g, with_children=True):
+    """ordered leaf constants of a body (typed numeric literals, string literals, named constants, Default::default calls)"""
+    out = []
+    bodies = [body]
+    if with_children:
+        bodies += sorted(g.cg.children.get(body.id, []), key=lambda c: c.key)
+    for b in bodies:
+        for bi in codec.rpo(b):
+            bb = b.bbs[bi]
+            if bb['cleanup']:
+                continue
+            ops = []
+            for st in bb['st']:
+                r = st.get('r')
+                if not isinstance(r, dict):
+                    continue
+                for k in ('o', 'a', 'b'):
+                    if isinstance(r.get(k), dict):
+                        ops.append(r[k])
+                ops.extend(r.get('ops', []))
+            t = bb['t']
+            if t['k'] == 'call':
+                f = t['f'].get('c', {}).get('fn', {})
+                nm = f.get('name')
+                if nm == 'default' and (f.get('trait') or '').endswith('default::Default'):
+                    out.append(('default',))
+                if nm in ('with_capacity', 'with_capacity_and_hasher'):
+                    pass
+                else:
+                    ops.extend(t['args'])
+            for o in ops:
+                c = o.get('c') if isinstance(o, dict) else None
+                if not c or 'fn' in c:
+                    continue
+                if 'def' in c and '{' not in c['def']:
+                    d = mirlib.canon(c['def'], b.crate)
+                    out.append(('const', '::'.join(d.split('::')[-2:]) if d.split('::')[-1].isupper() and len(d.split('::')) > 1 and d.split('::')[-2][:1].isupper() else d.split('::')[-1]))
+                elif 'pbytes' in c and len(c['pbytes']) == 8:
+                    out.append(('enumval', int.from_bytes(bytes.fromhex(c['pbytes']), 'little', signed=True)))
+                elif 'str' in c:
+                    out.append(('str', c['str']))
+                elif c.get('ty') in NUM_TYPES and 'v' in c:
+                    out.append((c['ty'], int(c['v'])))
+    return out
+
+
+def f64_bits(x):
+    return _struct.unpack('<Q', _struct.pack('<d', float(x)))[0]
+
+
+def literal_leaves(F, ty, lit, optional_ctx=False):
+    """expected ordered leaves of the Rust expression for an IDL default literal of declared type ty"""
+    lit = lit.strip()
+    k, d, rt, ff = F.resolve(ty)
+    if k == 'base':
+        n = rt[1]
+        if re.fullmatch(r'[A-Za-z_][\w.]*', lit) and lit not in ('true', 'false'):
+            # reference to a constant, or an enum member used for an integer field
+            if '.' in lit:
+                en, mem = lit.rsplit('.', 1)
+                ed = ff.decls.get(en.split('.')[-1])
+                if ed is not None and ed.kind == 'enum':
+                    # `(Enum::MEMBER.inner() as iN)`: the member is used by reference (promoted constant holding its number)
+                    return [('enumval', dict(ed.values).get(mem))]
+                return [('const', '%s::%s' % (en.split('.')[-1], mem))]
+            return [('const', lit)]
+        if n == 'bool':
+            v = {'true': 1, 'false': 0}.get(lit)
+            if v is None:
+                v = 1 if int(lit, 0) != 0 else 0
+            return [('bool', v)]
+        if n in ('byte', 'i8'):
+            return [('i8', int(lit, 0))]
+        if n in ('i16', 'i32', 'i64'):
+            return [(n, int(lit, 0))]
+        if n == 'double':
+            return [('f64', f64_bits(lit))]
+        if n in ('string', 'binary'):
+            return [('str', lit[1:-1])]
+        return [('?', lit)]
+    if k == 'enum':
+        if re.fullmatch(r'-?\d+', lit):
+            name = [n for n, v in d.values if v == int(lit)]
+            return [('const', '%s::%s' % (d.name, name[0] if name else '?'))]
+        mem = lit.rsplit('.', 1)[-1]
+        return [('const', '%s::%s' % (d.name, mem))]
+    if k in ('list', 'set'):
+        if re.fullmatch(r'[A-Za-z_]\w*', lit):
+            return [('const', lit)]
+        inner = lit[1:-1].strip()
+        out = []
+        for el in idl.split_top(inner) if inner else []:
+            out.extend(literal_leaves(ff, rt[1], el))
+        return out
+    if k == 'map':
+        if re.fullmatch(r'[A-Za-z_]\w*', lit):
+            return [('const', lit)]
+        inner = lit[1:-1].strip()
+        out = []
+        for kv in idl.split_top(inner) if inner else []:
+            kk, vv = idl.split_top(kv, ':')
+            out.extend(literal_leaves(ff, rt[1], kk))
+            out.extend(literal_leaves(ff, rt[2], vv))
+        return out
+    if k in ('struct', 'exception'):
+        inner = lit[1:-1].strip()
+        given = {}
+        for kv in idl.split_top(inner) if inner else []:
+            kk, vv = idl.split_top(kv, ':')
+            given[kk.strip().strip('"\'')] = vv
+        out = []
+        for f in d.fields:
+            if f.name in given:
+                out.extend(literal_leaves(ff, f.ty, given[f.name]))
+            elif f.req == 'required':
+                out.append(('default',))
+        return out
+    return [('?', lit)]
+
+
+def defaults(rep, split=False):
+    prog, g, files = load(split)
+    infos, _ = match_types(g, files)
+    from collections import Counter
+    for ti in infos:
+        if ti.role not in ('struct', 'exception'):
+            continue
+        has_default = any(f.default is not None for f in ti.fields)
+        db = g.defaults.get(ti.path)
+        key = 'G20.c|%s' % ti.label
+        if not has_default:
+            # derived Default: the impl body comes from #[derive(Default)] (marked automatically derived) or is absent
+            if db is None or (db.from_macro or '').startswith('derive') or 'Default' in (db.from_macro or ''):
+                rep.ok('G20.c', key, 'no IDL defaults: Default is derived (every field empty/absent)', db.loc() if db else '')
+            else:
+                leaves = body_leaves(db, g)
+                if all(l == ('default',) for l in leaves):
+                    rep.ok('G20.c', key, 'no IDL defaults: every field uses Default::default()', db.loc())
+                else:
+                    rep.bad('G20.c', key, db.loc(), '%s declares no defaults but its Default impl contains literals %s' % (ti.label, leaves[:6]))
+            continue
+        if db is None:
+            rep.bad('G20.b', 'G20.b|%s' % ti.label, '', '%s declares defaults but no Default impl was generated' % ti.label)
+            continue
+        rep.functions.add(db.id)
+        got = body_leaves(db, g)
+        want = []
+        per_field = []
+        for f in ti.fields:
+            if f.default is None:
+                lv = [('default',)]
+            else:
+                lv = literal_leaves(ti.F, f.ty, f.default)
+            per_field.append((f, lv))
+            want.extend(lv)
+        key = 'G20.b|%s' % ti.label
+        rep.disagreements_checked += len(ti.fields)
+        same_seq = got == want
+        if not same_seq and Counter(got) == Counter(want) and any(ti.F.resolve(f.ty)[0] == 'map' and f.default is not None for f in ti.fields):
+            # map literals: Rust evaluates the value expression before the key constant is passed to insert(); compare as multisets
+            same_seq = True
+        if same_seq:
+            rep.ok('G20.b', key, 'Default::default() holds the %d IDL defaults in declaration order (%d literal leaves compared)' % (sum(1 for f in ti.fields if f.default is not None), len(want)), db.loc())
+        else:
+            # first difference, mapped back to a field
+            cg_, cw_ = Counter(got), Counter(want)
+            only_got = list((cg_ - cw_).elements())
+            only_want = list((cw_ - cg_).elements())
+            i = 0
+            while i < min(len(got), len(want)) and got[i] == want[i]:
+                i += 1
+            if only_want:
+                # locate the field owning the first missing expected leaf
+                i = want.index(only_want[0])
+            pos = 0
+            culprit = None
+            for f, lv in per_field:
+                if pos + len(lv) > i:
+                    culprit = f
+                    break
+                pos += len(lv)
+            rep.bad('G20.b', key, db.loc(), '%s: Default::default() differs from the IDL defaults at field %s (IDL default `%s`): expected leaf %s; leaves only in the IDL %s, only in the generated code %s' % (
+                ti.label, culprit.name if culprit else '?', culprit.default if culprit else '?', want[i] if i < len(want) else 'end', only_want[:4], only_got[:4]))
+        # G20.a the decoders fill absent fields with the same values
+        dl = Counter(l for l in got if l != ('default',))
+        for which in ('decode', 'decode_async'):
+            b = ti.methods[which]
+            dec = Counter(body_leaves(b, g))
+            missing = {l: n for l, n in dl.items() if dec.get(l, 0) < n}
+            key = 'G20.a|%s|%s' % (ti.label, which)
+            if not missing:
+                rep.ok('G20.a', key, 'every default literal of Default::default() is also used by %s for an absent field' % which, b.loc())
+            else:
+                rep.bad('G20.a', key, b.loc(), '%s::%s does not fill absent fields with the values Default::default() uses: %s' % (ti.label, which, list(missing)[:5]))
